@@ -34,7 +34,10 @@ pub fn build(descs: &[FnDesc], symbols: &BTreeMap<String, Value>, rules: &[(Stri
     }
     for f in make_fns(descs, &log, &plan) {
         // functions named "dc…" are registered through a wrapper that keeps the trait's default cacheable()
-        b = if f.desc.name.starts_with("dc") {
+        b = if f.desc.name == "zsta" || f.desc.name == "zstb" {
+            *crate::instr::ZST_SINK.lock().unwrap() = Some((log.clone(), plan.clone()));
+            if f.desc.name == "zsta" { b.with_function(crate::instr::ZstA).expect("valid") } else { b.with_function(crate::instr::ZstB).expect("valid") }
+        } else if f.desc.name.starts_with("dc") {
             assert!(f.desc.cacheable, "a default-cacheable function must be described as cacheable");
             b.with_function(crate::instr::DefaultCacheable(f)).expect("fixture function names are valid")
         } else {
